@@ -37,7 +37,7 @@ c("C06", True, PBT + "arbitrary vertex sequences from a repetition grammar + exh
   "50 000 (quick) / 3.2 M (thorough) arbitrary polygons of up to 200 (thorough 600) vertices per ring, plus ALL words without equal neighbours over 3/4/5 pixel centres up to length 10/8/6 (thorough 13/10/8) driving kmpDeduplicate/splitRing directly; ALL periodic words pre + u^a + v^b + suf over three centres (a, b up to 7, thorough 9; found F15); a fixed list of large structured inputs (zig-zags of 3000 repeats, slivers of 1000 pixels, combs of 1000 teeth, 3000-vertex stars; thorough larger); run times are recorded, not judged. Liveness is decided only through a 10 s limit re-confirmed at 60 s in a fresh process.",
   "Open known finding F10 (tile matrices deeper than quadtree level 32 panic with 'cannot make Z') is excluded by signature and reported as KNOWN-FINDING.", "DESIGN.md §5 C06")
 c("C07", True, PBT + "metamorphic relations: repetition in process and in a second process, every subset of rings reversed, reverse flag toggled",
-  "10 000 (quick) / 1.6 M (thorough) polygons x ~8 snaps each: three in-process repetitions, a digest comparison with a second process for up to 3000 multi-level cases per run (Go randomises map order per process), all 2^r-1 ring reversal subsets, the reverse-flag relation ring by ring, repetitions under GOMAXPROCS 1 and 8, the returned geometry must not change while another polygon is snapped, and 1 case in 150 is a star of 520-2600 vertices (thorough 6000).",
+  "10 000 (quick) / 1.6 M (thorough) polygons x ~8 snaps each: three in-process repetitions, a digest comparison with a second process for up to 3000 multi-level cases per run (Go randomises map order per process), all 2^r-1 ring reversal subsets, the reverse-flag relation ring by ring, repetitions under GOMAXPROCS 1 and 8, the returned geometry must not change while another polygon is snapped, and 1 case in 150 (thorough 400) is a star of 520-2600 vertices (thorough 4000).",
   KERNEL, "DESIGN.md §5 C07")
 c("C08", True, PBT + "metamorphic/differential: every non-empty subset of a drawn id set against the single-id results, round grids only",
   "10 000 (quick) / 1.6 M (thorough) polygons on synthetic dyadic grids and NetherlandsRDNewQuad; for every subset S of 2-4 drawn ids (listed in drawn, rotated or reversed order, some with an id listed twice) keys(result) is a subset of S and result[z] deep-equals the result of requesting z alone.",
